@@ -576,7 +576,11 @@ def _substitution(model: Model, Sr: RuleResult, N: RuleResult, fwd: FuncInfo, ca
 def _tuple_out(model: Model, P: RuleResult):
     q = model.func(QUAD, "quad")
     defs = function_defs(q.node)
-    pk = [k for k, ds in defs.items() if len(ds) == 1 and isinstance(ds[0], ast.Call) and ast.unparse(ds[0].func) == "TensorPacker"]
+    def _is_pk(ds):
+        real = [d for d in ds if not (isinstance(d, ast.Constant) and d.value is None)]      # `packer = None` in the arm that never uses it
+        return len(real) == 1 and isinstance(real[0], ast.Call) and ast.unparse(real[0].func) == "TensorPacker"
+    pk = [k for k, ds in defs.items() if _is_pk(ds)]
+    defs = {k: ([d for d in ds if not (isinstance(d, ast.Constant) and d.value is None)] if k in pk else ds) for k, ds in defs.items()}
     if len(pk) != 1:
         raise AnalysisError("C12-P: TensorPacker construction not found in quad")
     pk = pk[0]
